@@ -37,9 +37,18 @@ def authPair : Option ConnObs → Bool × Option Nat
 
 def authAs (o : Option ConnObs) (x : Nat) : Bool := authPair o == (true, some x)
 
+/-- **what "expired" means in the property** — stated here, independently of the source: the config carries an expiry
+time and that time has passed; nothing else in the config (UserID, type, secret state) matters.  The model uses the
+predicate *translated from* `ClientConfig.IsExpired`; `Proofs.isExpired_eq` ties the two, so a change of the Go predicate
+breaks that proof, while the observer below keeps judging the implementation by this definition. -/
+def expiredAt (now : Nat) (cfg : ClientConfigT) : Bool :=
+  match cfg.ExpiresAt with
+  | none => false
+  | some t => decide (t < now)
+
 /-- the client exists with usable, unexpired credentials -/
 def flagsOK (now : Nat) (cfg : ClientConfigT) : Bool :=
-  !models.ClientConfig.IsExpired now cfg && !cfg.deleted && cfg.secret == .usable
+  !expiredAt now cfg && !cfg.deleted && cfg.secret == .usable
 
 /-- the address was neither banned nor blacklisted when the message arrived: by the observer's own record of
 explicit bans / blacklistings and by what the server itself reported after the previous event -/
